@@ -15,6 +15,12 @@ def record(tag, dur=0):
            'node': t.node.name if t and t.node else None, 'done': False}
     w.invocations.append(rec)
     sim.emit('invoke', tag)
+    hook = getattr(w, 'invoke_hook', None)
+    if hook is not None:
+        hook(rec)
+    # a real job opens a transaction first: a point where the process can be
+    # pre-empted or die while the job is under way
+    sim.yield_point('job')
     if dur:
         sim.sleep(dur)
     rec['done'] = True
